@@ -551,6 +551,51 @@ Section Monitors2.
 
   Definition mon_C08 : verdict := vand mon_C08_freshen mon_C08_frame.
 
+  (* C01 / C11 (history part) — the fields the age of a freshened response is computed from are those the
+     validation delivered: the entry is written with the instants of the validating exchange, the Age,
+     Date, Expires, Cache-Control and Last-Modified of the 304 replace the stored ones, a field of that
+     list which the 304 does not carry keeps its stored value, and a 304 without a usable Date is dated by
+     its receipt.  (An Age that neither the stored response nor the 304 carried would make every later age
+     wrong by that amount.) *)
+  Definition age_fields : list bytes :=
+    [bs "Age"; bs "Date"; bs "Expires"; bs "Cache-Control"; bs "Last-Modified"].
+  Definition age_inputs : verdict :=
+    match how_ with
+    | Validated i =>
+        match stored_, find_call i (x_events o) with
+        | Some s, Some (cq, a, b, _) =>
+            match scripted_reply script i (is_conditional cq) with
+            | RResp nm =>
+                match find (fun ke => (e_body (snd ke) =? sv_body s) && (e_status (snd ke) =? sv_status s))
+                           (set_entries (x_events o)) with
+                | None => VNa
+                | Some (_, e) =>
+                    let omitted := spec_hop_by_hop (p_hdr nm) in
+                    let given n := amem n (p_hdr nm) && negb (in_names n omitted) in
+                    let taken := forallb (fun kv => negb (in_names (fst kv) age_fields) || in_names (fst kv) omitted ||
+                                    match alookup (fst kv) (e_hdr e) with Some vs => forallb2_eq vs (snd kv) | None => false end)
+                                   (p_hdr nm) in
+                    let kept := forallb (fun kv => negb (in_names (fst kv) age_fields) || given (fst kv) ||
+                                    beq (fst kv) (bs "Date") ||
+                                    match alookup (fst kv) (sv_hdr s) with Some vs => forallb2_eq vs (snd kv) | None => false end)
+                                   (e_hdr e) in
+                    let date_ok := match spec_time (hget (bs "Date") (p_hdr nm)) with
+                                   | Some _ => true
+                                   | None => beq (hget (bs "Date") (e_hdr e)) (format_imf_fixdate (b / second))
+                                   end in
+                    if negb ((e_req_at e =? a) && (e_recv_at e =? b)) then VBad 11
+                    else if negb taken then VBad 12
+                    else if negb kept then VBad 14
+                    else if negb date_ok then VBad 13
+                    else VOk
+                end
+            | RErr => VNa
+            end
+        | _, _ => VNa
+        end
+    | _ => VNa
+    end.
+
   (* C11 — Age and cache-status fields tell the truth *)
   Definition status_of (r : response) : option cache_status :=
     match hvalues status_header (p_hdr r) with
@@ -673,11 +718,45 @@ Section Monitors2.
         else latest_store r
     end.
 
+  (* the Date a reference should carry: that of the entry last written under its id *)
+  Definition redate (r : ref) : ref :=
+    match last_entry (r_id r) prefix None with
+    | Some e => {| r_id := r_id r; r_vary := r_vary r; r_resolved := r_resolved r; r_recv := date_header (e_hdr e) |}
+    | None => r
+    end.
+  (* how many references match the request and carry the instant t *)
+  Definition matching_at (l : list ref) (t : Z) : Z :=
+    Z.of_nat (List.length (filter (fun r => match ref_matches r (q_hdr q) with Some true => r_recv r =? t | _ => false end) l)).
+
   Definition mon_C09 : verdict :=
     if negb (plain_get q) then VNa else
     match latest_store (rev past) with
     | None => VNa
-    | Some (q0, k, e) =>
+    | Some (_, k0, _) =>
+        (* the index that lists the latest entry, as last written; among its references that match the
+           request the cache is to use the one with the most recent Date (RFC 9111 §4.1) — the Date of
+           the stored response, whatever instant the index records; the promise is about that one *)
+        let chosen :=
+          match fold_left (fun a ev => match ev with
+                                       | EvSetRefs _ l => if in_names k0 (some_ref_ids l) then Some l else a
+                                       | _ => a end) prefix None with
+          | Some l =>
+              let rl := map redate (strip_refs l) in
+              match find_match rl (q_hdr q) 0 None with
+              | Some (Some i) => match nth_error rl (Z.to_nat i) with
+                                 | Some r => if matching_at rl (r_recv r) =? 1 then Some (r_id r) else None
+                                 | None => None end
+              | _ => None
+              end
+          | None => None
+          end in
+        match chosen with
+        | None => VNa
+        | Some k =>
+        match stored_by k past None with
+        | None => VNa
+        | Some (q0, e) =>
+        if existsb (fun u => uri_equiv u (q_url q)) (invalidations_since k past []) then VNa else
         match call_index (e_hdr e) with
         | None => VNa
         | Some c =>
@@ -692,34 +771,20 @@ Section Monitors2.
                 let life := match sd_duration (bs "max-age") rcc with Some m => Z.min life0 m | None => life0 end in
                 let min_fresh := match sd_duration (bs "min-fresh") rcc with Some m => m | None => 0 end in
                 let very_fresh := sat_add (sat_add (sv_age s now) min_fresh) second <? life in
-                (* the cache selects, among the matching stored responses, the one with the most recent
-                   Date (RFC 9111 §4.1); the promise is about that one *)
-                let selected :=
-                  (* the index that lists this entry, as last written *)
-                  match fold_left (fun a ev => match ev with
-                                               | EvSetRefs _ l => if in_names k (some_ref_ids l) then Some l else a
-                                               | _ => a end) prefix None with
-                  | Some l =>
-                      match find_match (strip_refs l) (q_hdr q) 0 None with
-                      | Some (Some i) => match nth_error (strip_refs l) (Z.to_nat i) with
-                                         | Some r => beq (r_id r) k
-                                         | None => false end
-                      | _ => false
-                      end
-                  | None => false
-                  end in
-                if negb (plain_get q0) || negb selected then VNa
+                if negb (plain_get q0) then VNa
                 else match variant_match (e_hdr e) q0 q with
                      | Some true =>
                          if very_fresh && negb (needs_validation_with life0 s q now) && negb (sd_has (bs "no-store") rcc) then
                            match how_, fg_calls o with
                            | FromStore, [] => VOk
-                           | _, _ => VBad 1
+                           | _, _ => VBad (if beq k k0 then 1 else 2)
                            end
                          else VNa
                      | _ => VNa
                      end
             end
+        end
+        end
         end
     end.
 
@@ -801,11 +866,11 @@ Fixpoint monitor_all_from (T : Z) (script : list (Z * origin_reply * origin_repl
   | (q, o) :: r =>
       let prefix := all_events past in
       (classify script o,
-       [(bs "C01", mon_C01 script prefix q o); (bs "C02", mon_C02 script prefix q o);
+       [(bs "C01", vand (mon_C01 script prefix q o) (age_inputs script past o)); (bs "C02", mon_C02 script prefix q o);
         (bs "C03", mon_C03 script past q o); (bs "C04", mon_C04 script past q o);
         (bs "C05", mon_C05 script past o); (bs "C06", mon_C06 script q o);
         (bs "C07", mon_C07 script past q o); (bs "C08", mon_C08 script past q o);
-        (bs "C09", mon_C09 script past q o); (bs "C10", mon_C10 o); (bs "C11", mon_C11 script past o);
+        (bs "C09", mon_C09 script past q o); (bs "C10", mon_C10 o); (bs "C11", vand (mon_C11 script past o) (age_inputs script past o));
         (bs "C13", mon_C13 script past q o); (bs "C18", mon_C18 script prefix q o);
         (bs "C19", mon_C19 past q o); (bs "C20", mon_C20 T script prefix q o)])
       :: monitor_all_from T script (past ++ [(q, o)]) r
